@@ -37,9 +37,9 @@ Definition as_scalar (v : pyval) : result scalar :=
 
 Definition as_quasi (v : pyval) : result quasi :=
   match v with
-  | PObj CQuasiDist [PDict kvs; shots; bound] =>
+  | PObj CQuasiDist [PDict kvs; shots; bound; PNum (NInt w)] =>
       do d <- mapM (fun kv : pyval * pyval => do k <- as_int (fst kv); do x <- as_num (snd kv); Ok (k, x)) kvs;
-      do s <- as_opt as_num shots; do b <- as_opt as_num bound; Ok (mkQuasi d s b)
+      do s <- as_opt as_num shots; do b <- as_opt as_num bound; Ok (mkQuasi d s b w)
   | _ => Err ModelScope
   end.
 
